@@ -4,6 +4,7 @@ import (
 	"fmt"
 	"go/token"
 	"go/types"
+	"strings"
 
 	"golang.org/x/tools/go/ssa"
 )
@@ -11,7 +12,7 @@ import (
 func init() {
 	register(&propDef{
 		ID:          "C10",
-		Explanation: "Structural preconditions of the UDP template lifetime, decided on SSA: (1) on the UDP side of addTemplate every path stores expiryTime = clock.Now() + templateTTL and then performs exactly one of: install clock.AfterFunc(templateTTL, f) into an expiryTimer that is nil, or Reset(templateTTL) the existing timer (never both, never none; the same TTL field on all three); (2) the timer callback f reaches the template map only through deleteTemplateWithConds with a non-empty condition whose closure reads expiryTime of ITS OWN argument (the template currently stored, looked up under the lock) and compares it with a clock.Now() taken inside f by !After, for the same (obsDomainID, templateID) the timer was armed for; (3) in the delete function the conditions are evaluated before anything is changed: once expiryTimer.Stop() has been called every path performs the deletion (a vetoed delete never stops the re-armed timer), every path to the map deletion passes Stop() unless the timer is nil, and an emptied domain map is pruned; (4) the lockset rules for the template fields and the map (the condition closure is entered only from the locked call site). The interleavings of timer firing, callback execution, refresh and invalidation themselves are schedules and are not enumerated; time.Timer semantics are trusted. Later additions: the entry whose timer fields are written is a fresh &template{} or the lookup result under this call's keys, and a fresh entry is stored only on the miss edge of that lookup. Round-five additions: the per-domain map is created only on the miss edge of the domain lookup (never replaced when it exists).",
+		Explanation: "Structural preconditions of the UDP template lifetime, decided on SSA: (1) on the UDP side of addTemplate every path stores expiryTime = clock.Now() + templateTTL and then performs exactly one of: install clock.AfterFunc(templateTTL, f) into an expiryTimer that is nil, or Reset(templateTTL) the existing timer (never both, never none; the same TTL field on all three); (2) the timer callback f reaches the template map only through deleteTemplateWithConds with a non-empty condition whose closure reads expiryTime of ITS OWN argument (the template currently stored, looked up under the lock) and compares it with a clock.Now() taken inside f by !After, for the same (obsDomainID, templateID) the timer was armed for; (3) in the delete function the conditions are evaluated before anything is changed: once expiryTimer.Stop() has been called every path performs the deletion (a vetoed delete never stops the re-armed timer), every path to the map deletion passes Stop() unless the timer is nil, and an emptied domain map is pruned; (4) the lockset rules for the template fields and the map (the condition closure is entered only from the locked call site). The interleavings of timer firing, callback execution, refresh and invalidation themselves are schedules and are not enumerated; time.Timer semantics are trusted. Later additions: the entry whose timer fields are written is a fresh &template{} or the lookup result under this call's keys, and a fresh entry is stored only on the miss edge of that lookup. Round-five additions: the per-domain map is created only on the miss edge of the domain lookup (never replaced when it exists). Round-six additions: template.expiryTime / expiryTimer are written by the add / delete functions only.",
 		Assume:      []string{"time.AfterFunc / Timer.Reset / Timer.Stop semantics as documented (quoted in the source comment)", "the clock interface is implemented by realClock in production"},
 		Run:         runC10,
 	})
@@ -23,6 +24,7 @@ func isFieldLoad(v ssa.Value, want string) bool {
 }
 
 func runC10(p *Prog, r *Report, tier string) {
+	checkExpiryOwners(p, r, "R-TIMER.owners")
 	at := p.Fn("(*pkg/collector.CollectingProcess).addTemplate")
 	del := p.Fn("(*pkg/collector.CollectingProcess).deleteTemplateWithConds")
 	if at == nil || del == nil {
@@ -518,5 +520,82 @@ func checkDomainPrune(p *Prog, r *Report, rule string) {
 	}
 	if n == 0 {
 		r.Undecided(rule, "anchor: delete(templatesMap, obsDomainID)", "pkg/collector/process.go", "not found")
+	}
+}
+
+// checkExpiryOwners: the lifetime of a template (expiryTime / expiryTimer) is written by the add and delete functions
+// only, where the deadline and the timer are kept in step; another writer (a "keep alive" on data, say) moves the
+// deadline without re-arming the timer, and the expiry callback then refuses to delete.
+func checkExpiryOwners(p *Prog, r *Report, rule string) {
+	n := 0
+	for _, f := range p.RepoFns {
+		if !keyInPkg(fnKey(f), "pkg/collector") {
+			continue
+		}
+		eachInstr(f, func(in ssa.Instruction) {
+			st, ok := in.(*ssa.Store)
+			if !ok {
+				return
+			}
+			tn, fn, _, ok := fieldOf(st.Addr)
+			if !ok || tn != "pkg/collector.template" || (fn != "expiryTime" && fn != "expiryTimer") {
+				return
+			}
+			n++
+			owner := f
+			for owner.Parent() != nil {
+				owner = owner.Parent()
+			}
+			okOwner := owner.Name() == "addTemplate" || owner.Name() == "deleteTemplateWithConds"
+			r.Check(okOwner, rule, fmt.Sprintf("%s: writes template.%s", fnKey(f), fn), p.instrPos(in), "addTemplate / deleteTemplateWithConds (deadline and timer kept in step)",
+				"a function other than the add / delete functions changes a template's deadline or timer: the deadline moves without the timer (or the reverse), so the template is discarded early or never", true)
+		})
+	}
+	if n == 0 {
+		r.Undecided(rule, "anchor: stores to template.expiryTime / expiryTimer", "pkg/collector/process.go", "not found")
+	}
+}
+
+// checkExpiryUDPOnly: templates expire on UDP only (RFC 7011 8.1: over a connection a template lives as long as the
+// session). Every timer arm and deadline store of addTemplate is under protocol == "udp".
+func checkExpiryUDPOnly(p *Prog, r *Report, rule string) {
+	at := p.Fn("(*pkg/collector.CollectingProcess).addTemplate")
+	if at == nil {
+		r.Undecided(rule, "anchor: addTemplate", "pkg/collector/process.go", "not found")
+		return
+	}
+	n := 0
+	eachInstr(at, func(in ssa.Instruction) {
+		relevant := false
+		if st, ok := in.(*ssa.Store); ok {
+			if tn, fn, _, ok := fieldOf(st.Addr); ok && tn == "pkg/collector.template" && (fn == "expiryTime" || fn == "expiryTimer") {
+				relevant = true
+			}
+		}
+		if c := callOf(in); c != nil {
+			nm := calleeName(c)
+			if strings.HasSuffix(nm, ".AfterFunc") || strings.HasSuffix(nm, ".Reset") {
+				relevant = true
+			}
+		}
+		if !relevant {
+			return
+		}
+		n++
+		udp := false
+		for _, fct := range blockFacts(in.Block()) {
+			x, y := fct.X, fct.Y
+			if _, ok := constString(x); ok {
+				x, y = y, x
+			}
+			if s, ok := constString(y); ok && s == "udp" && fct.Op == token.EQL && isFieldLoad(x, "pkg/collector.CollectingProcess.protocol") {
+				udp = true
+			}
+		}
+		r.Check(udp, rule, fnKey(at)+": template lifetime armed for UDP only", p.instrPos(in), "under protocol == \"udp\"",
+			"a template deadline / timer is set on a path that stream transports take too: over TCP/TLS a valid data message that arrives after the lifetime is refused (its template was discarded although the session is open)", true)
+	})
+	if n == 0 {
+		r.Undecided(rule, fnKey(at)+": timer arms", p.pos(at.Pos()), "no deadline store / timer arm found")
 	}
 }
